@@ -45,7 +45,7 @@ ANCHORS = [
 FLOORS = {'*': {'history:cases': 300, 'history:probes-after-failure': 50, 'history:probes-after-context-request': 50, 'history:step-that-raised-out-of-dispatch': 50,
                 'leak:function': 6, 'leak:positional-context': 6, 'leak:view': 6, 'leak:base': 6, 'leak:jsonschema': 6,
                 'leak:pydantic': 6, 'leak:N=1000': 3, 'leak:hooks-that-raise': 6, 'leak:dispatch-raised-from-a-hook': 30, 'threads:runs': 4, 'threads:injected-yields': 1000,
-                'threads:distinct-lines': 20, 'threads:overlapping-dispatches': 100, 'threads:responses': 2000, 'threads:interpreter-state-samples': 2000, 'threads:cold-dispatcher-with-middlewares': 40, 'growth:runs': 8, 'cancel:runs': 12, 'cancel:dispatch-cancelled': 100}}
+                'threads:distinct-lines': 20, 'threads:overlapping-dispatches': 100, 'threads:responses': 2000, 'threads:interpreter-state-samples': 2000, 'threads:cold-dispatcher-with-middlewares': 40, 'growth:runs': 8, 'cancel:runs': 12, 'two-loops:runs': 8, 'cancel:dispatch-cancelled': 100}}
 
 
 # ---------------------------------------------------------------------------------------------------- history
@@ -64,6 +64,9 @@ PROBES = [
     [docs.obj(id='p', method='ok', params=[]), docs.obj(id='q', method='raiselib', params=['InvalidRequestError'])],
     # methods that work on their arguments in place: the values belong to ONE request, also when an equal text was seen before
     docs.obj(id='p', method='mutate', params=[[3, 2, 1], {'k': 1}]),
+    # validation that relies on custom validator code (the probe's answer needs the validator to have run)
+    docs.obj(id='p', method='pd_strip', params=['  padded  ']), docs.obj(id='p', method='pd_pos', params=[0]),
+    docs.obj(id='p', method='cnt.bump', params=[2]),
     [docs.obj(id='p', method='mutate', params={'lst': [1]}), docs.obj(id='q', method='mutate', params={'lst': [1]})],
 ]
 UNENCODABLE = [docs.obj(id=1, method='unenc', params=[w]) for w in ('set', 'object', 'bytes', 'nested')] + \
@@ -371,6 +374,39 @@ def run_cancel(ctx, n, concurrent, how):
     ctx.ok(f'cancel:{how}:{"concurrent" if concurrent else "sequential"}', cls, sample=wit)
 
 
+def run_two_loops(ctx, n_members, ticks, repeats):
+    """one AsyncDispatcher served under several event loops one after the other (asyncio.run per call, a loop per test, a loop
+    per worker thread): large batches of really suspending methods; every loop gets the answer the first one got"""
+    import asyncio
+    w = world.World(True, None)
+    text = json.dumps([docs.obj(id=k, method='slow', params=[f's{k}', ticks]) for k in range(n_members)])
+    answers = []
+    for r in range(repeats):
+        loop = asyncio.new_event_loop()
+        try:
+            w.log.clear()
+            out = loop.run_until_complete(asyncio.wait_for(w.dispatcher.dispatch(text, context=world.Context(r)), 60))
+            answers.append(('ret', out))
+        except Exception as e:
+            answers.append(('exc', e))
+        finally:
+            loop.close()
+    ctx.hit('two-loops:runs')
+    cls = ('two-loops', n_members, ticks, repeats)
+    first = answers[0]
+    for r, a in enumerate(answers[1:], 2):
+        same = a[0] == first[0] == 'ret' and strictjson.typed_eq(strictjson.decode(a[1][0]), strictjson.decode(first[1][0]))
+        if not same:
+            ctx.violation('answer-depends-on-an-earlier-event-loop' + (f':raises-{type(a[1]).__name__}' if a[0] == 'exc' else ''), 'two-loops', cls,
+                          batch_members=n_members, suspensions_per_member=ticks, loop_number=r, first_loop=list(first)[:1] + [str(first[1])[:200]],
+                          this_loop=[a[0], str(a[1])[:300]])
+            return
+    if first[0] != 'ret':
+        ctx.violation(f'dispatch-raises:{type(first[1]).__name__}', 'two-loops', cls, exception=first[1])
+        return
+    ctx.ok('two-loops', cls, sample={'members': n_members, 'loops': repeats})
+
+
 def run_growth(ctx, is_async, what):
     """many requests whose client-controlled strings (method names, ids, parameter values) are ALL DISTINCT: nothing
     derived from them may be kept; judged on gc object counts and on the logging manager's logger table"""
@@ -649,6 +685,13 @@ def gen(ctx):
         crafted.append([a])
         for b in ctx_reqs:
             crafted.append([a, b])
+    # requests that make custom validator code fail with something else than a validation error, then a probe of the same method
+    poison = [docs.obj(id=1, method='pd_strip', params=[5]), docs.obj(id=1, method='pd_strip', params=[None]),
+              docs.obj(id=1, method='pd_pos', params=[[1]]), docs.obj(method='pd_strip', params=[{'x': 1}])]
+    for a in poison:
+        crafted.append([a])
+        crafted.append([a, a, ctx_reqs[0]])
+    crafted.append([docs.obj(id=1, method='cnt.bump', params=[5]), docs.obj(method='cnt.bump', params=[7])])
     # the very same request text several times before it is probed again
     for p_ in PROBES:
         crafted.append([p_])
@@ -686,6 +729,10 @@ def gen(ctx):
         for concurrent in (True, False):
             for how in ('cancel', 'timeout'):
                 yield 'cancel', dict(n=n, concurrent=concurrent, how=how)
+    for n_members in (2, 40, 100, 300):
+        for ticks in (1, 3):
+            yield 'two-loops', dict(n_members=n_members, ticks=ticks, repeats=3)
 
 
-KINDS = {'history': run_history, 'leak': run_leak, 'threads': run_threads, 'growth': run_growth, 'cancel': run_cancel}
+KINDS = {'history': run_history, 'leak': run_leak, 'threads': run_threads, 'growth': run_growth, 'cancel': run_cancel,
+         'two-loops': run_two_loops}
